@@ -25,6 +25,9 @@ fn main() {
         2 => run::<2>(&w),
         3 => run::<3>(&w),
         4 => run::<4>(&w),
+        8 => run::<8>(&w),
+        16 => run::<16>(&w),
+        17 => run::<17>(&w),
         _ => panic!("N not instantiated in the replay binary"),
     }
 }
